@@ -97,3 +97,27 @@ def sspoc_bystander(width, n_classes=3, seed=54321, extra_kws=False):
         quiet(b.predict, X[:, np.array(b.selected_sensors, dtype=int)])
     except Exception:
         pass
+
+
+# ---------------------------------------------------------------------------------------------------------------------
+# results that were handed out stay what they were: the caller keeps the very object a call returned (not a copy); later
+# calls on the same object, or on another object sharing an optimizer / basis instance, must not reach into it
+class Held:
+    def __init__(self):
+        self.items = []
+
+    def hold(self, label, obj, ctx=None):
+        try:
+            self.items.append((label, obj, np.array(obj, copy=True), ctx))
+        except Exception:
+            pass
+        return obj
+
+    def disturbed(self):
+        out = []
+        for label, obj, snap, ctx in self.items:
+            now = np.asarray(obj)
+            if now.shape != snap.shape or not np.array_equal(now, snap, equal_nan=True):
+                out.append((label, ctx))
+        self.items = []
+        return out
